@@ -1,5 +1,5 @@
 """C09 — copies of map objects are complete and independent of their source."""
-import random, copy as _copy, warnings, json
+import random, copy as _copy, warnings, json, hashlib
 import c09_util as U
 from c09_util import M
 
@@ -29,9 +29,9 @@ NOT_MODELLED = ["copy options keep_vis=False / des_id / side_mapping / group_map
                 "Vec/Angle/Matrix operator purity is checked by direct search only (no Lean model of math.py here)"]
 ASSUMPTIONS = ["the VMF an object belongs to and object ids are not part of the copied value (reset by design)"]
 
-KINDS = ['entity', 'brush_entity', 'solid', 'side', 'disp1', 'disp2', 'disp3', 'disp4', 'visgroup', 'group', 'camera',
+KINDS = ['rich', 'entity', 'brush_entity', 'solid', 'side', 'disp1', 'disp2', 'disp3', 'disp4', 'visgroup', 'group', 'camera',
          'cordon', 'output', 'fixup', 'uvaxis', 'kv', 'kvroot']
-WEIGHTS = {'entity': 8, 'brush_entity': 6, 'solid': 6, 'side': 4, 'disp1': 3, 'disp2': 3, 'disp3': 2, 'disp4': 1, 'visgroup': 3,
+WEIGHTS = {'rich': 1, 'entity': 8, 'brush_entity': 6, 'solid': 6, 'side': 4, 'disp1': 3, 'disp2': 3, 'disp3': 2, 'disp4': 1, 'visgroup': 3,
            'group': 1, 'camera': 1, 'cordon': 1, 'output': 1, 'fixup': 2, 'uvaxis': 1, 'kv': 4, 'kvroot': 3}
 
 
@@ -46,7 +46,8 @@ def build(case):
     for _ in range(rng.randrange(0, 3)):
         other.create_ent('info_null')
     k = case['kind']
-    if k == 'entity': o = U.r_entity(rng, home, brush=False)
+    if k == 'rich': o = U.rich_entity(rng, home)
+    elif k == 'entity': o = U.r_entity(rng, home, brush=False)
     elif k == 'brush_entity': o = U.r_entity(rng, home, brush=True, max_power=2)
     elif k == 'solid': o = U.r_solid(rng, home)
     elif k == 'side': o = U.r_side(rng, home, 0)
@@ -88,8 +89,9 @@ def do_copy(o, other, across):
 def gen_cases(ctx, n):
     rng = ctx.rng
     kinds = [k for k in KINDS for _ in range(WEIGHTS[k])]
-    out = []
-    for i in range(n):
+    out = [{'kind': 'rich', 'seed': 'rich', 'across': False}, {'kind': 'rich', 'seed': 'rich', 'across': True},
+           {'kind': 'kv', 'seed': 'kv0', 'across': False}, {'kind': 'fixup', 'seed': 'fixup0', 'across': False}]
+    for i in range(n - len(out)):
         k = rng.choice(kinds)
         out.append({'kind': k, 'seed': f'{ctx.seed}:{i}:{rng.randrange(1 << 30)}',
                     'across': k not in ('camera', 'cordon', 'output', 'fixup', 'uvaxis', 'kv', 'kvroot') and rng.random() < 0.4})
@@ -220,8 +222,10 @@ def kv_operands(case):
     vmf, kvm, sm = M.get()
     rng = random.Random('kvop:' + case['seed'])
     a = U.r_kv(rng, root=True) if case['kind'] == 'kvroot' else U.r_kv(rng, 0, block=True)
-    form = rng.choice(['root', 'list', 'list', 'empty'])
-    if form == 'root':
+    form = rng.choice(['root', 'list', 'list', 'empty', 'named'])
+    if form == 'named':      # deprecated: a named block/leaf is appended as one child
+        b = U.r_kv(rng, 1)
+    elif form == 'root':
         b = U.r_kv(rng, root=True)
     elif form == 'list':
         b = [U.r_kv(rng, 1) for _ in range(rng.randrange(1, 4))]
@@ -242,7 +246,12 @@ def check_kv_ops(ctx, case, tab):
         a, b, form = kv_operands(case)
         ta, tb = kv_text(a), kv_text(b)
         kids_a = [U.export_text(c) for c in a]
-        kids_b = [U.export_text(c) for c in b]
+        if form == 'named':
+            if op == 'extend' and not b.has_children():
+                continue            # extend() of a leaf raises by design
+            kids_b = [U.export_text(b)] if op != 'extend' else [U.export_text(c) for c in b]
+        else:
+            kids_b = [U.export_text(c) for c in b]
         with warnings.catch_warnings():
             warnings.simplefilter('ignore')
             if op == 'add':
@@ -279,7 +288,7 @@ def check_kv_ops(ctx, case, tab):
                 break
         tr = kv_text(res)
         rng = random.Random('kvmut:' + case['seed'])
-        for c in (list(b) if not isinstance(b, list) else b):
+        for c in ([b] if form == 'named' else list(b) if not isinstance(b, list) else b):
             U.brutal_mutation(W, c, rng)
         if kv_text(res) != tr:
             ctx.witness(f'kv-{op}-aliases-operand', f'Keyvalues {op}: mutating the right operand afterwards changes the result', inp)
@@ -379,9 +388,10 @@ def correspond(ctx, drivers):
         impl_tree = W.lab(cp, k)
         reqs.append({'op': 'copy', 'heap': store, 'root': root, 'fuel': U.FUEL})
         meta.append(('copy', case, impl_tree, k, type(o).__name__))
-        ctx.case({'kind': case['kind'], 'across': case['across'], 'store': store}, nontrivial=k > 1, sample_every=10 ** 9)
-        if len(ctx.samples) < 6:
-            ctx.samples.append({'kind': case['kind'], 'seed': case['seed'], 'across': case['across'], 'objects': k})
+        digest = hashlib.blake2b(json.dumps(store).encode(), digest_size=8).hexdigest()
+        rec = {'kind': case['kind'], 'across': case['across'], 'objects': k, 'store_digest': digest}
+        ctx.case(rec, nontrivial=k > 1, sample_every=97)     # distinct by content of the serialised store
+        rec['seed'] = case['seed']                           # (for the samples in the evidence)
         ctx.count('kind:' + case['kind'] + (':across' if case['across'] else ''))
         ctx.count('objects<=%d' % (10 if k <= 10 else 100 if k <= 100 else 1000 if k <= 1000 else 100000))
         # frame: mutate one side, compare the other side's abstraction before/after
@@ -405,6 +415,8 @@ def correspond(ctx, drivers):
         if case['kind'] in ('kv', 'kvroot'):
             for opname in ('add', 'iadd', 'extend'):
                 a, b, form = kv_operands(case)
+                if form == 'named':
+                    continue        # the deprecated single-keyvalue form is covered by the direct search only
                 W2 = U.Walker(tab)
                 la = W2.add(a)
                 lb = W2.add(b)
@@ -510,7 +522,7 @@ def search(ctx):
 
 def _dedupe(ctx):
     """keep one witness per key, smallest kinds first (a crude shrink: simpler kinds are smaller objects)"""
-    order = {k: i for i, k in enumerate(['uvaxis', 'output', 'camera', 'cordon', 'group', 'fixup', 'side', 'disp1', 'kv', 'kvroot', 'visgroup', 'entity', 'disp2', 'solid', 'disp3', 'brush_entity', 'disp4', 'math'])}
+    order = {k: i for i, k in enumerate(['rich', 'uvaxis', 'output', 'camera', 'cordon', 'group', 'fixup', 'side', 'disp1', 'kv', 'kvroot', 'visgroup', 'entity', 'disp2', 'solid', 'disp3', 'brush_entity', 'disp4', 'math'])}
     best = {}
     for w in ctx.witnesses:
         kk = w['key']
